@@ -936,6 +936,55 @@ on_busy(void)
 	_exit(3);
 }
 
+/*
+ * The very last use in the process: an exit handler registered before the
+ * library was first used runs after the library's own exit-time clean-up, and
+ * may still do I/O - the library has to come to life again.  One read and one
+ * write request on fresh descriptors, judged like any other.
+ */
+static int do_last_use;
+
+static void
+last_use(void)
+{
+	int fd, wfd, i;
+	uint8_t buf[40], wbuf[25];
+	struct req q = { 0, 0, 0 }, wq = { 0, 0, 0 };
+	struct simk_fd * f;
+
+	if (!do_last_use)
+		return;
+	simk_reset(4711);
+	fd = simk_newfd();
+	simk_set_in_keyed(fd, 0x1a57, 40, SIMK_END_STALL, 0);
+	wfd = simk_newfd();
+	simk_set_out(wfd, 0x2b68, 1, 0);
+	for (i = 0; i < (int)sizeof(wbuf); i++)
+		wbuf[i] = vh_streambyte(0x2b68, (uint64_t)i);
+	if (network_read(fd, buf, sizeof(buf), sizeof(buf), rw_cb, &q) == NULL ||
+	    network_write(wfd, wbuf, sizeof(wbuf), sizeof(wbuf), rw_cb, &wq) == NULL) {
+		viol("atexit:register-failed", "a request made from an exit handler (after the library's "
+		    "own exit-time clean-up) was refused");
+		return;
+	}
+	for (i = 0; i < 1000 && !(q.done && wq.done); i++)
+		if (events_run() != 0)
+			break;
+	f = simk_get(wfd);
+	if (!q.done || q.n != (ssize_t)sizeof(buf) || !wq.done || wq.n != (ssize_t)sizeof(wbuf) ||
+	    f->out_total != sizeof(wbuf) || f->out_mismatch)
+		viol("atexit:request-not-completed", "requests made from an exit handler: read done=%d n=%zd, "
+		    "write done=%d n=%zd", q.done, q.n, wq.done, wq.n);
+	else
+		for (i = 0; i < (int)sizeof(buf); i++)
+			if (buf[i] != vh_streambyte(0x1a57, (uint64_t)i)) {
+				viol("atexit:wrong-bytes", "read from an exit handler: byte %d differs", i);
+				break;
+			}
+	printf("STAT requests_from_an_exit_handler 2\n");
+	fflush(stdout);
+}
+
 static int fd0dummy = -1;
 static uint64_t st_fd0_free;
 
@@ -950,6 +999,7 @@ main(int argc, char ** argv)
 	first = strtoull(argv[2], NULL, 0);
 	count = strtoull(argv[3], NULL, 0);
 	vh_stdout_linebuf();
+	atexit(last_use);	/* before the library registers its own handlers */
 	close(0);
 	simk_busy_limit = 1000000;
 	simk_on_busy = on_busy;
@@ -1008,5 +1058,6 @@ main(int argc, char ** argv)
 	printf("STAT cases_with_descriptor_0_free %llu\nSTAT connect_lists_with_zero_timeout %llu\n"
 	    "STAT duplicate_requests_refused %llu\n",
 	    (unsigned long long)st_fd0_free, (unsigned long long)st_zero_timeo, (unsigned long long)st_dup);
+	do_last_use = 1;
 	return (0);
 }
